@@ -415,6 +415,18 @@ def r4_output_switch(ctx) -> None:
         else:
             r.violation("C09.R4", cr.qual, short(prog.enclosing_stmt(resets[0]), 100),
                         "the reset is not a complete pass over self.rules before the first resolve (same loop as the resolve: a rule later in the list is reset after an earlier correlation rule referred to it — document order decides)", f"{cr.module.relpath}:{resets[0].lineno}")
+    # a collection object built over rules that live in another collection (a lookup helper) must not resolve: its
+    # constructor would run this very reset on the borrowed rule objects
+    for q, f in sorted(prog.funcs.items()):
+        if not f.module.name.startswith("sigma.") or (f.cls is not None and f.cls.qual == COLL):
+            continue
+        for c in (x for x in walk_no_nested(f.node) if isinstance(x, ast.Call) and prog.resolve_expr(f.module, x.func) == COLL):
+            kw = {k.arg: k.value for k in c.keywords}
+            loc = f"{f.module.relpath}:{c.lineno}"
+            if "resolve_references" in kw and isinstance(kw["resolve_references"], ast.Constant) and kw["resolve_references"].value is False:
+                r.ok("C09.R4", q, f"{short(c, 70)}: temporary collection without reference resolution", loc)
+            else:
+                r.violation("C09.R4", q, short(c, 100), "a collection is constructed over rule objects of another collection with reference resolution on: the constructor resets their backreferences and by-reference disabled output — a rule referenced without generate emits its own query once a filter that names rules has looked it up", loc)
     for q, f in sorted(prog.funcs.items()):
         if f.module.name.startswith("sigma.") and q != cr.qual:
             for c in (x for x in walk_no_nested(f.node) if isinstance(x, ast.Call) and call_name(x).endswith(".reset_references")):
